@@ -1105,6 +1105,8 @@ pub struct ServerView {
     pub canon: super::exec::CanonState,
     pub live: BTreeMap<(usize, u64), Vec<Change>>,
     pub buffered: BTreeMap<(usize, u64), Vec<Change>>,
+    /// stored seq ranges of buffered chunks (a range may carry no rows at all)
+    pub seq_ranges: BTreeMap<(usize, u64), Vec<(u64, u64)>>,
 }
 
 pub async fn server_view(w: &World, s: usize) -> R<ServerView> {
@@ -1121,6 +1123,15 @@ pub async fn server_view(w: &World, s: usize) -> R<ServerView> {
             let c = c?;
             let Some(&a) = w.actor_idx.get(&ActorId::from_bytes(c.site_id)) else { continue };
             dest.entry((a, c.db_version.0)).or_default().push(c);
+        }
+    }
+    {
+        let mut stmt = conn.prepare("SELECT site_id, db_version, start_seq, end_seq FROM __corro_seq_bookkeeping ORDER BY 1, 2, 3")?;
+        let rows = stmt.query_map([], |r| Ok((r.get::<_, ActorId>(0)?, r.get::<_, u64>(1)?, r.get::<_, u64>(2)?, r.get::<_, u64>(3)?)))?;
+        for r in rows {
+            let (site, v, x, y) = r?;
+            let Some(&a) = w.actor_idx.get(&site) else { continue };
+            view.seq_ranges.entry((a, v)).or_default().push((x, y));
         }
     }
     Ok(view)
@@ -1145,6 +1156,11 @@ impl ServerView {
             if within(buf) == changes {
                 return true;
             }
+        }
+        // a stored range may carry no rows at all (they were overwritten at the supplier):
+        // then there is nothing in the buffer table for it
+        if changes.is_empty() && self.seq_ranges.get(&(a, v)).is_some_and(|rs| rs.iter().any(|(r0, r1)| *r0 <= x && y <= *r1)) {
+            return !self.buffered.get(&(a, v)).is_some_and(|buf| !within(buf).is_empty());
         }
         false
     }
@@ -1199,7 +1215,13 @@ pub async fn check_answers_mid(
                     return vio(
                         "C05",
                         "answer-matches-neither-state-before-nor-after-concurrent-activity",
-                        json!({"server": s, "actor": a, "version": version.0, "range": [x, y], "changes": changes.len()}),
+                        json!({"server": s, "actor": a, "version": version.0, "range": [x, y], "changes": changes.len(), "last_seq": last_seq.0,
+                               "live_before": pre.live.get(&(a, version.0)).map(|l| (l.len(), l.last().map(|c| c.seq.0))),
+                               "live_after": post.live.get(&(a, version.0)).map(|l| (l.len(), l.last().map(|c| c.seq.0))),
+                               "buffered_rows_before": pre.buffered.get(&(a, version.0)).map(|l| l.len()),
+                               "buffered_rows_after": post.buffered.get(&(a, version.0)).map(|l| l.len()),
+                               "missing_before": pre.canon.partial.get(&a).and_then(|p| p.get(&version.0)),
+                               "missing_after": post.canon.partial.get(&a).and_then(|p| p.get(&version.0))}),
                     );
                 }
                 if !requested(a, version.0) {
